@@ -231,7 +231,7 @@ pub fn run(prop: &str, tier: &str, replay: Option<&str>) -> i32 {
                 Ok(Err(e)) => {
                     out.digest = fnv(format!("{:?}", std::mem::discriminant(&e)).as_bytes());
                     // fixtures without the optional embedded public key ("np") or without any curve ("bare"): a back end may refuse them (ring does)
-                    if let Some(w) = want.filter(|_| !z.name.contains("np.") && !z.name.contains("bare")) {
+                    if let Some(w) = want.filter(|_| !z.name.contains("np.") && !z.name.contains("opt.") && !z.name.contains("bare")) {
                         f.push(Finding::new("KEY-LOAD-REFUSED", &what, format!("a {:?} {:?} key should load as {} but: {:?}", z.kind, z.format, w.name(), e)));
                     }
                 }
@@ -304,7 +304,7 @@ pub fn run(prop: &str, tier: &str, replay: Option<&str>) -> i32 {
     // 1c. PEM texts holding more than one block: the first private-key block is the key (what every PEM reader of
     // private keys does), or the text is refused; never a later key, never a mix
     {
-        let loadable: Vec<&ZooKey> = zoo.iter().filter(|z| z.format == KeyFormat::Pkcs8 && backend_supports(z.kind, z.format) && !z.kind.is_slow() && !z.name.contains("np.")).collect();
+        let loadable: Vec<&ZooKey> = zoo.iter().filter(|z| z.format == KeyFormat::Pkcs8 && backend_supports(z.kind, z.format) && !z.kind.is_slow() && !z.name.contains("np.") && !z.name.contains("opt.")).collect();
         let mut cases: Vec<(usize, usize, usize)> = Vec::new();
         for a in 0..loadable.len() {
             for b in 0..loadable.len() {
